@@ -81,6 +81,7 @@ func checkC28(c *Ctx) string {
 	// ---- Hash / Equal of the number representations
 	checkNumberHash(c, vts)
 
+	checkConcatBounded(c, "C28.6 K4c equality and hashing of concatenations use only their own bytes of the shared buffer")
 	return "Decided: (1) ordBool<ordNum<ordStr<ordDate<ordObject<ordOther and ordBool..ordObject == types.Boolean..Object (go/constant); (2) core.Order evaluated (AbsEnv.run) for every constant of type types.Type against the table " +
 		"{Boolean,Number,String,Date,Object → own class, Record → ordObject, Except → ordStr, every other → ordOther}; (3) the table core.order used by deepCompare/deepEqual (constant element stores + the identity loop) gives every " +
 		"comparable type the number of its Order class; (4) for every type of package core with a constant Type() whose Compare (declared or promoted) can return: either one cmp.Compare(<constant>, Order(other)) precedes every " +
